@@ -37,6 +37,7 @@ def check(m, run):
     approx(m, run)
     kv1(m, run)
     cm1(m, run)
+    options_forwarded(m, run)
     from . import c03
     c03.ho2(m, run)     # least-squares fitting evaluates N_i(u_k) with the single-function routine: half-open spans
     try:
@@ -44,6 +45,45 @@ def check(m, run):
         skel_drivers.c11(m, run)
     except ImportError:
         run.note('LY4', 'fitting', 'SKEL drivers not available')
+
+
+def options_forwarded(m, run):
+    """OP1: a boolean option of a fitting function (parameter with a boolean default, or a local read from kwargs with a boolean default)
+    that is forwarded to a package function in one call is forwarded in every call of that function: the two parametric directions of a
+    surface fit are parametrised by the same method (chord length or centripetal)."""
+    n = 0
+    for fi in sorted(m.functions_in('fitting'), key=lambda f: f.key):
+        a = fi.node.args
+        ps = [x.arg for x in a.args]
+        opts = {p for p, d in zip(ps[len(ps) - len(a.defaults):], a.defaults) if isinstance(d, ast.Constant) and isinstance(d.value, bool)}
+        for st in walk_no_nested(fi.node):
+            if isinstance(st, ast.Assign) and len(st.targets) == 1 and isinstance(st.targets[0], ast.Name) and isinstance(st.value, ast.Call) \
+                    and isinstance(st.value.func, ast.Attribute) and st.value.func.attr in ('get', 'pop') and len(st.value.args) == 2 \
+                    and isinstance(st.value.args[1], ast.Constant) and isinstance(st.value.args[1].value, bool):
+                opts.add(st.targets[0].id)
+        if not opts:
+            continue
+        calls = {}
+        for c in walk_no_nested(fi.node):
+            if isinstance(c, ast.Call):
+                tgt = m.resolve_callable(fi.mod, c.func)
+                if tgt is not None:
+                    calls.setdefault(tgt.key, []).append(c)
+        for g, cs in sorted(calls.items()):
+            for o in sorted(opts):
+                def passes(c):
+                    return any(isinstance(x, ast.Name) and x.id == o for x in list(c.args) + [k.value for k in c.keywords])
+                w = [passes(c) for c in cs]
+                if not any(w):
+                    continue
+                n += 1
+                miss = [c for c, x in zip(cs, w) if not x]
+                run.ob('OP1.option-forwarded-to-every-call', '%s :: %s -> %s' % (fi.key, o, g), not miss,
+                       'forwarded in all %d calls' % len(cs) if not miss else
+                       'option `%s` is passed to %s in %d of %d calls; the call at line %d falls back to the default, so the directions are parametrised by different methods'
+                       % (o, g, sum(w), len(cs), miss[0].lineno), site(fi, miss[0] if miss else cs[0]))
+    if n < 3:
+        raise AnalysisError('OP1: only %d forwarded options found in fitting' % n)
 
 
 class FInterp(Interp):
